@@ -156,8 +156,18 @@ def signature(app):
     kind, n, body = instantiate(app, x)
     return (n.sexpr(), body.sexpr())
 
-def qf_facts(apps):
-    """quantifier-free facts: argmax range, argmax attains the max over the same body, witnesses of max/min"""
+def qf_facts(apps, depth=1):
+    """quantifier-free facts: argmax range, argmax attains the max over the same body, witnesses of max/min
+    (and, one level deeper, of the closed max/min nodes that appear in a witness instance: nested maxima over several axes)"""
+    facts = _qf_facts(apps)
+    if depth > 0:
+        inner = {}
+        for f in facts: collect(f, inner)
+        known = {a.sexpr() for a in apps}
+        new = [b for k, b in inner.items() if k not in known and not _has_binder(b) and entry_of(b).kind in ("max", "min", "argmax")]
+        if new: facts += qf_facts(new, depth - 1)
+    return facts
+def _qf_facts(apps):
     facts = []
     bysig = {}
     for a in apps: bysig.setdefault(signature(a), []).append(a)
